@@ -58,6 +58,8 @@ IsBijectionM(P, n) == /\ Len(P) = n * n
                       /\ \A q \in 1..(n * n) : P[q] \in {0, 1}
                       /\ \A i \in 0..(n - 1) : Cardinality({j \in 0..(n - 1) : At(P, n, i, j) = 1}) = 1
                       /\ \A j \in 0..(n - 1) : Cardinality({i \in 0..(n - 1) : At(P, n, i, j) = 1}) = 1
+\* enc = "V": Tensor<size_t,n> holding row numbers;  enc = "M": the n x n 0/1 matrix
+IsBijection(P, n, enc) == IF enc = "V" THEN IsBijectionV(P, n) ELSE IsBijectionM(P, n)
 PermOfMatrix(P, n) == [i \in 1..n |-> CHOOSE j \in 0..(n - 1) : At(P, n, i - 1, j) = 1]
 MatrixOfPerm(p, n) == [q \in 1..(n * n) |-> IF p[(q - 1) \div n + 1] = (q - 1) % n THEN 1 ELSE 0]
 InversePerm(p, n) == [i \in 1..n |-> (CHOOSE k \in 1..n : p[k] = i - 1) - 1]
